@@ -103,6 +103,10 @@ class Cont:
         """documented quantisation of the rate field (identity where the field holds the rate exactly)"""
         return sr
 
+    def rate_ok(self, sr, got):
+        """what C04 demands of the re-opened rate: exact where the field can hold it, else the documented quantisation"""
+        return got == self.quant(sr)
+
     def cfg(self, j):
         return "codec=%02x endian=%d ch=%d sr=%d" % (j.f.codec, j.f.endian >> 28, j.ch, j.sr)
 
@@ -131,6 +135,16 @@ class Htk(Cont):
     def quant(self, sr):
         p = 10000000 // sr
         return 10000000 // p if p > 0 else 16000
+
+    def rate_ok(self, sr, got):
+        # exact when the rate divides 10^7; otherwise any rate within one of 10^7 / period (a reader may round either way);
+        # above 10 MHz the period is 0 and the format leaves the rate undefined (libsndfile guesses 16000)
+        p = 10000000 // sr
+        if p == 0:
+            return got >= 1
+        if 10000000 % sr == 0:
+            return got == sr
+        return got in (10000000 // p, -(-10000000 // p))
 
     def size_problems(self, j, b, frames):
         out = []
@@ -437,7 +451,7 @@ def predicate(j, dumps, lines):
             probs.append("channels %s, written with %d" % (d["ch"], j.ch))
         if int(d["fmt"], 16) != cont.word(j.f):
             probs.append("format word %s, expected %08x" % (d["fmt"], cont.word(j.f)))
-        if int(d["sr"]) != want_sr:
+        if not cont.rate_ok(j.sr, int(d["sr"])):
             probs.append("sample rate %s, requested %d (the rate field holds %d)" % (d["sr"], j.sr, want_sr))
         fr = int(d["frames"])
         if fr != j.n:
@@ -450,9 +464,27 @@ def predicate(j, dumps, lines):
             probs.append("[C11] the image left by the header update cannot be opened: " + crash)
         else:
             d = kv(crash)
-            if (int(d["ch"]), int(d["fmt"], 16), int(d["sr"]), int(d["frames"])) != (j.ch, cont.word(j.f), want_sr, j.parts[0]):
+            if (int(d["ch"]), int(d["fmt"], 16), int(d["frames"])) != (j.ch, cont.word(j.f), j.parts[0]) or not cont.rate_ok(j.sr, int(d["sr"])):
                 probs.append("[C11] the image left by the header update reports %s, expected ch=%d fmt=%08x sr=%d frames=%d" % (crash, j.ch, cont.word(j.f), want_sr, j.parts[0]))
     return probs
+
+
+def replay_tail(ctx, j, probs):
+    """the script cut after the operation whose transcript line shows the first problem, with that line as `observed-last`"""
+    L = j.script().split("\n")[:-1]
+    p = probs[0]
+    if p.startswith("[C11]"):
+        sc = L
+    elif p.startswith("reading to end"):
+        sc = L[:-2]
+    elif p.startswith(("re-open", "channels", "format word", "sample rate", "frames ")):
+        sc = L[:-3]
+    else:
+        sc = L[:-4] + ["dump s0"]          # a size field or fixed header field: the closed bytes themselves
+    text = "\n".join(sc) + "\n"
+    lines, rc, err = ctx.script(text)
+    obs = "observed-last %s\n" % lines[-1].strip() if lines else ""
+    return obs + "--- script\n" + text
 
 
 def writer_campaign(ctx, cont, fmts, quick):
@@ -600,6 +632,13 @@ def run(ctx, found=False, only=None):
         rates = sorted(set(cont.rates + [ctx.rng.randrange(1, 2 ** 31) for _ in range(100)] + [ctx.rng.randrange(1, 70000) for _ in range(100)]))
         back = ctx.run_model(["small2", cont.name], "".join("quant %d\n" % r for r in rates)).split("\n")
         qbad = [(r, l) for r, l in zip(rates, back) if l != str(cont.quant(r))]
+        if cont.name == "htk":
+            # the class predicate of KF-HTK-MAGIC-CLASH here against Sf.C04Htk.KF.magicClash (driver `clash`)
+            probe = [(16000, 41828 + 65536 * k + d) for k in range(8) for d in (-1, 0, 1)] + [(8000, 0x01040000), (16000, 0x2E736E64), (1, 0x464F524D)] + \
+                    [(ctx.rng.choice(cont.rates), ctx.rng.randrange(0, 2 ** 31)) for _ in range(200)] + [(ctx.rng.choice(cont.rates), ctx.rng.randrange(0, 2 ** 20)) for _ in range(200)]
+            ans = ctx.run_model(["small2", "htk"], "".join("clash %d %d\n" % p for p in probe)).split("\n")
+            qbad += [("clash %d %d" % p, a) for p, a in zip(probe, ans) if a != ("1" if cont.clash(p[1], p[0]) else "0")]
+            ctx.count(len(probe))
         ctx.count(wstats["sessions"] * 12 + rstats["parse_cases"] + len(rates))
         ctx.coverage["traces_validated_against_impl"] += wstats["sessions"] + wstats["twins"] + rstats["parse_cases"]
         notes[cont.name] = {"formats": [f.name for f in fmts], "writer": dict(wstats), "reader": dict(rstats), "writer_disagreements": len(corr),
@@ -617,7 +656,7 @@ def run(ctx, found=False, only=None):
             reported = True
             text = "# %s violated on the implementation's own transcript (%s container campaign)\n# format %s, %d channel(s), %d Hz, frames per call %s, stale frames %d\n# %s\n" % (
                 "C11" if all(p.startswith("[C11]") for p in probs) else "C04", cont.name.upper(), j.f.name, j.ch, j.sr, j.parts, j.stale, "; ".join(probs))
-            ctx.violation("c04-%s-%s" % (cont.name, name), text + "--- script\n" + script)
+            ctx.violation("c04-%s-%s" % (cont.name, name), text + replay_tail(ctx, j, probs))
         if not reported and not found:
             if corr:
                 j, name, script, diffs, reopen = corr[0]
